@@ -137,3 +137,23 @@ impl FromSpecImpl<rodbus::client::TlsError> for ffi::ParamError {
 impl From<rodbus::client::TlsError> for ffi::ParamError {
 //@fn ffi/rodbus-ffi/src/helpers/conversions.rs | From<rodbus::client::TlsError> for ffi::ParamError::from | tags=C18
 }
+
+// ---- [C18] serial port settings: every field reaches the Rust API as its same-named counterpart ----
+pub open spec fn spec_serial_settings(from: ffi::SerialPortSettings) -> rodbus::SerialSettings {
+    rodbus::SerialSettings {
+        baud_rate: from.baud_rate,
+        data_bits: match ffi::data_bits_of(from.data_bits) { ffi::DataBits::Five => rodbus::DataBits::Five, ffi::DataBits::Six => rodbus::DataBits::Six,
+            ffi::DataBits::Seven => rodbus::DataBits::Seven, ffi::DataBits::Eight => rodbus::DataBits::Eight },
+        flow_control: match ffi::flow_control_of(from.flow_control) { ffi::FlowControl::None => rodbus::FlowControl::None,
+            ffi::FlowControl::Software => rodbus::FlowControl::Software, ffi::FlowControl::Hardware => rodbus::FlowControl::Hardware },
+        stop_bits: match ffi::stop_bits_of(from.stop_bits) { ffi::StopBits::One => rodbus::StopBits::One, ffi::StopBits::Two => rodbus::StopBits::Two },
+        parity: match ffi::parity_of(from.parity) { ffi::Parity::None => rodbus::Parity::None, ffi::Parity::Odd => rodbus::Parity::Odd, ffi::Parity::Even => rodbus::Parity::Even },
+    }
+}
+impl FromSpecImpl<ffi::SerialPortSettings> for rodbus::SerialSettings {
+    open spec fn obeys_from_spec() -> bool { true }
+    open spec fn from_spec(from: ffi::SerialPortSettings) -> Self { spec_serial_settings(from) }
+}
+impl From<ffi::SerialPortSettings> for rodbus::SerialSettings {
+//@fn ffi/rodbus-ffi/src/helpers/conversions.rs | From<ffi::SerialPortSettings> for rodbus::SerialSettings::from | tags=C18
+}
